@@ -9,6 +9,7 @@ class C07(Prop):
     """Theorem C07_fromStr: for every well-formed literal of any length the model of FromStr returns exactly the rational it spells (induction over digit lists); the model is tied to the real parser by exhaustive short literals + random long ones, and the implementation is checked directly against the independent literal spec."""
     id = "C07"
     module = "Anything.Props.C07"
+    extra_modules = ["Anything.Props.C07Query"]
     trusted = ["num-bigint/num-rational arithmetic (tied to Lean's Rat by sampling)",
                "Spec.Decimal (literal grammar and value) is human input"]
 
